@@ -660,6 +660,11 @@ func (p *Parser) parseStmt(allowDeclaration bool) (stmt IStmt) {
 }
 
 func (p *Parser) parseStmtList(in string) (list []IStmt) {
+	// what follows is never part of an arrow function parameter list, even when we are inside a parenthesized expression that may turn out to be one
+	prevAssumeArrowFunc := p.assumeArrowFunc
+	p.assumeArrowFunc = false
+	defer func() { p.assumeArrowFunc = prevAssumeArrowFunc }()
+
 	comments := len(p.comments)
 	if !p.consume(in, OpenBraceToken) {
 		return
@@ -921,6 +926,11 @@ func (p *Parser) parseVarDecl(tt TokenType, canBeHoisted bool) (varDecl *VarDecl
 }
 
 func (p *Parser) parseFuncParams(in string) (params Params) {
+	// what follows is never part of an arrow function parameter list, even when we are inside a parenthesized expression that may turn out to be one
+	prevAssumeArrowFunc := p.assumeArrowFunc
+	p.assumeArrowFunc = false
+	defer func() { p.assumeArrowFunc = prevAssumeArrowFunc }()
+
 	// FormalParameters
 	if !p.consume(in, OpenParenToken) {
 		return
@@ -1023,6 +1033,11 @@ func (p *Parser) parseClassExpr() (classDecl *ClassDecl) {
 }
 
 func (p *Parser) parseAnyClass(expr bool) (classDecl *ClassDecl) {
+	// what follows is never part of an arrow function parameter list, even when we are inside a parenthesized expression that may turn out to be one
+	prevAssumeArrowFunc := p.assumeArrowFunc
+	p.assumeArrowFunc = false
+	defer func() { p.assumeArrowFunc = prevAssumeArrowFunc }()
+
 	// assume we're at class
 	p.next()
 	classDecl = &ClassDecl{}
